@@ -14,7 +14,7 @@ from symlomond.engine import SymReal, _r
 from symlomond.symdata import items_of
 
 ACTIONS = ['silent', 'pong', 'text', 'close']
-FRAME = {'pong': [0x8A, 0x00], 'text': [0x81, 0x01, 0x61], 'close': [0x88, 0x02, 0x03, 0xE8]}
+FRAME = {'pong': [0x8A, 0x00], 'text': [0x81, 0x01, 0x61], 'close': [0x88, 0x02, 0x03, 0xE8], 'ping': [0x89, 0x00]}
 
 
 def R(x):
